@@ -80,11 +80,20 @@ pub fn findings_failure(property: &str, which: &RProp, verdict: &Verdict, render
         RProp::Conservation => "conservation",
         RProp::Reporting => "reporting",
     };
+    // a tour that R finds infeasible in time (C01's subject) has no well-defined schedule to compare reported numbers with:
+    // the solver did not wait for a window it missed while R's replay does; such tours are left to C01
+    let tour_of = |detail: &str| detail.strip_prefix("tour ").and_then(|r| r.split(' ').next()).and_then(|n| n.parse::<usize>().ok());
+    let infeasible_tours: Vec<usize> = verdict.of(RProp::Feasibility).iter().filter(|x| matches!(x.rule.as_str(), "time-window" | "time-window-start" | "shift-end" | "reachability")).filter_map(|x| tour_of(&x.detail)).collect();
     // open known findings are excluded (and counted) so that the search continues behind them
     let f = verdict
         .of(which.clone())
         .into_iter()
         .filter(|x| {
+            if id == "reporting" && tour_of(&x.detail).is_some_and(|t| infeasible_tours.contains(&t)) {
+                stats.class("reporting.skipped.tour_infeasible_in_time_for_R");
+                return false;
+            }
+
             let sig = format!("{id}:{}", x.rule);
             if id == "feasibility" && known_nonmetric(property, rendered, &x.rule, stats) {
                 return false;
